@@ -692,7 +692,7 @@ class Gen:
         if ctes and r < 0.6:
             name, q, colnames = self.pick(ctes)
             cols = [((colnames[i] if colnames else n), ty, prov) for i, (n, ty, prov) in enumerate(q.out)]
-            src = Source("cte", self.new_alias("c"), name=name, cols=cols)
+            src = Source("cte", self.new_alias("r"), name=name, cols=cols)   # (not "c": c1..c4 are column names)
             if not (no_self and self._base_tables(src) & used):
                 self.tags.add("cte:ref")
                 self._scope_tables |= self._base_tables(src)
